@@ -371,6 +371,15 @@ def run(prop_id, tier, seed, nshards=None):
     errors = [r[1] for r in results if r[0] != "ok"]
     if errors:
         raise HarnessError("worker failed:\n" + "\n".join(errors))
+    # 2b. optional coverage-guided fuzz stage (atheris): crashing inputs come back as plain cases and are
+    #     decided by the property's own check_case
+    fuzz_info = None
+    if hasattr(mod, "fuzz_stage"):
+        fuzz_info, fuzz_cases = mod.fuzz_stage(tier, seed)
+        st1 = Stats()
+        for case in fuzz_cases:
+            st1.add(mod, "atheris-crash-recheck", 0, case, mod.check_case(case))
+        extra_parts.append(st1.export())
     tot = merge(extra_parts + [r[1] for r in results])
 
     # 3. report known findings
@@ -418,6 +427,8 @@ def run(prop_id, tier, seed, nshards=None):
         shards=nshards,
         violations_detail=[dict(sig=v["sig"], count=v["count"], detail=v["detail"][:500]) for v in violations],
     )
+    if fuzz_info is not None:
+        coverage["fuzz"] = fuzz_info
     if hasattr(mod, "extra_evidence"):
         coverage.update(mod.extra_evidence(tier))
     ev = dict(property_id=prop_id, tier=tier, seed=int(seed), level=mod.LEVEL, coverage=coverage,
